@@ -144,16 +144,19 @@ impl ZoneStore {
 
         #[cfg(iroh_verif)]
         crate::verif_hooks::pause("resolve:cache-check").await;
-        // Check cache first (short lock scope)
-        {
-            let mut cache = self.cache.lock().await;
-            if let Some(rset) = cache.resolve(pubkey, name, record_type) {
-                debug!(
-                    len = rset.records_without_rrsigs().count(),
-                    "resolved from cache"
-                );
-                return Ok(Some(rset));
-            }
+        // Check cache first.
+        //
+        // On a miss the cache lock is kept until the zone read from the store has been
+        // cached. `insert` invalidates the cache *after* its store write, under this lock,
+        // so a packet read before a concurrent publish can never be cached after that
+        // publish's invalidation (it would be served until the next publish).
+        let mut cache = self.cache.lock().await;
+        if let Some(rset) = cache.resolve(pubkey, name, record_type) {
+            debug!(
+                len = rset.records_without_rrsigs().count(),
+                "resolved from cache"
+            );
+            return Ok(Some(rset));
         }
 
         #[cfg(iroh_verif)]
@@ -163,7 +166,6 @@ impl ZoneStore {
             trace!(packet_timestamp = ?packet.timestamp(), "store hit");
             #[cfg(iroh_verif)]
             crate::verif_hooks::pause("resolve:cache-insert").await;
-            let mut cache = self.cache.lock().await;
             let result = cache.insert_and_resolve(&packet, name, record_type);
             return match result {
                 Ok(Some(rset)) => {
@@ -183,6 +185,7 @@ impl ZoneStore {
                 }
             };
         };
+        drop(cache);
 
         if let Some(dht) = self.dht.as_ref() {
             debug!("DHT resolve {}", pubkey.to_z32());
